@@ -340,3 +340,10 @@ def contracts(tier):
 
 
 LEVEL = "proof"
+EXPLANATION = ("Unbounded inductive proofs: (1) wire format of the real RawPacketTransmitter (CRC units through their C30 contracts) for all "
+               "headers, payload tails of 1..4 bytes, zero-length and delayed packets and all PHY ready patterns; (2) product proof "
+               "RawPacketTransmitter -> RawHeaderPacketReceiver: the received header equals the transmitted one with good CRCs; "
+               "(3) the DPP end format agrees with the data receiver's CRC check of C40 (combinational lemmas). The payload round trip "
+               "through DataPacketReceiver is by composition of (1)+(3) with the C40 contract, not by a product proof.")
+ASSUMPTIONS = ["payload stream well-formed (word present when taken; only the last word partial, contiguous lanes)", "CRC unit contracts (C30)",
+               "END-END-END-EPF directly after the CRC-32 with idle padding (USB 3.2 reading of the statement's framing sentence)"]
